@@ -100,6 +100,19 @@ def gen_score(rng, m, n_ballots=None, partial=True, maxgrade=5):
     return [[json.loads(k), str(w)] for k, w in seen.items()]
 
 
+def gen_score_tied(rng, m):
+    """tie-heavy score profiles: full ballots over all m candidates with grades from a narrow band, equal weights - the shape on
+    which medians, means and sums of several candidates coincide and the tie-breaks of the cardinal evaluators run"""
+    lo = rng.choice([0, 1, 2, 3])
+    band = [lo, lo + 1] if rng.random() < 0.5 else [lo, lo + 1, lo + 2]
+    w = rng.choice([1, 2, 5, 10])
+    seen = {}
+    for _ in range(rng.randint(2, 5)):
+        key = json.dumps([[c, rng.choice(band)] for c in range(m)])
+        seen[key] = seen.get(key, 0) + w
+    return [[json.loads(k), str(v)] for k, v in seen.items()]
+
+
 def gen_pairwise_sparse(rng, m):
     out = []
     for a in range(m):
@@ -298,6 +311,8 @@ def gen_profile(rng, vtype, m):
         return gen_ranked(rng, m, shared=False)
     if vtype == 'approval':
         return gen_approval(rng, m)
+    if vtype == 'score' and rng.random() < 0.3:
+        return gen_score_tied(rng, max(m, 4))
     if vtype == 'score':
         return gen_score(rng, m)
     if vtype == 'pairwise':
